@@ -48,6 +48,7 @@ func groups(tier string) []group {
 	var gs []group
 	gs = append(gs, scalarGroups(tier)...)
 	gs = append(gs, descGroups(tier)...)
+	gs = append(gs, pooledGroups(tier)...)
 	return gs
 }
 
